@@ -25,9 +25,19 @@ pub mod mpsc {
     use std::task::{Context, Poll};
 
     /// model bounds (exceeding one is an assertion failure, never a silent truncation)
+    #[cfg(kani)]
     pub const MAXCAP: usize = 3;
+    #[cfg(kani)]
     pub const MAXWAIT: usize = 3;
+    // native runs (replay / cross-validation of the MIR interpreter) are not bounded by CBMC
+    #[cfg(not(kani))]
+    pub const MAXCAP: usize = 64;
+    #[cfg(not(kani))]
+    pub const MAXWAIT: usize = 16;
+    #[cfg(kani)]
     pub const MAXCH: usize = 6;
+    #[cfg(not(kani))]
+    pub const MAXCH: usize = 32;
 
     pub mod error {
         #[derive(Debug, PartialEq, Eq)]
@@ -99,15 +109,35 @@ pub mod mpsc {
     pub fn ctr(id: u8) -> &'static mut Ctr {
         unsafe { &mut CH[id as usize] }
     }
+    /// native runs: start from a clean slate
+    pub fn model_reset() {
+        unsafe {
+            CH = [CTR0; MAXCH];
+            NCH = 0;
+        }
+    }
     /// number of channels created so far (harness introspection)
     pub fn channels_created() -> usize {
         unsafe { NCH }
     }
 
+    #[cfg(kani)]
     struct Slots<T> {
         s0: Option<T>,
         s1: Option<T>,
         s2: Option<T>,
+    }
+    #[cfg(not(kani))]
+    struct Slots<T> {
+        q: std::collections::VecDeque<T>,
+    }
+    #[cfg(kani)]
+    fn new_slots<T>() -> Slots<T> {
+        Slots { s0: None, s1: None, s2: None }
+    }
+    #[cfg(not(kani))]
+    fn new_slots<T>() -> Slots<T> {
+        Slots { q: std::collections::VecDeque::new() }
     }
     #[allow(clippy::mut_from_ref)]
     fn slots<'a, T>(id: u8) -> &'a mut Slots<T> {
@@ -117,11 +147,14 @@ pub mod mpsc {
         let c = ctr(id);
         let s = slots::<T>(id);
         assert!(c.len < MAXCAP, "model: push beyond MAXCAP");
+        #[cfg(kani)]
         match c.len {
             0 => s.s0 = Some(v),
             1 => s.s1 = Some(v),
             _ => s.s2 = Some(v),
         }
+        #[cfg(not(kani))]
+        s.q.push_back(v);
         c.len += 1;
         c.pushed += 1;
         if c.len > c.max_len {
@@ -134,13 +167,19 @@ pub mod mpsc {
             return None;
         }
         let s = slots::<T>(id);
-        let v = s.s0.take();
-        if c.len > 1 {
-            s.s0 = s.s1.take();
-        }
-        if c.len > 2 {
-            s.s1 = s.s2.take();
-        }
+        #[cfg(kani)]
+        let v = {
+            let v = s.s0.take();
+            if c.len > 1 {
+                s.s0 = s.s1.take();
+            }
+            if c.len > 2 {
+                s.s1 = s.s2.take();
+            }
+            v
+        };
+        #[cfg(not(kani))]
+        let v = s.q.pop_front();
         c.len -= 1;
         c.popped += 1;
         v
@@ -254,7 +293,7 @@ pub mod mpsc {
             NCH += 1;
             id as u8
         };
-        let cell: *mut Slots<T> = Box::into_raw(Box::new(Slots { s0: None, s1: None, s2: None }));
+        let cell: *mut Slots<T> = Box::into_raw(Box::new(new_slots::<T>()));
         let c = ctr(id);
         *c = CTR0;
         c.used = true;
@@ -618,7 +657,10 @@ pub mod oneshot {
     use std::pin::Pin;
     use std::task::{Context, Poll};
 
+    #[cfg(kani)]
     pub const MAXOS: usize = 6;
+    #[cfg(not(kani))]
+    pub const MAXOS: usize = 64;
     pub mod error {
         #[derive(Debug, PartialEq, Eq)]
         pub struct RecvError(pub(crate) ());
@@ -651,6 +693,12 @@ pub mod oneshot {
     }
     pub fn oneshots_created() -> usize {
         unsafe { NOS }
+    }
+    pub fn model_reset() {
+        unsafe {
+            OS = [OS0; MAXOS];
+            NOS = 0;
+        }
     }
     /// harness introspection
     pub fn model_has_value(id: u8) -> bool {
